@@ -497,3 +497,9 @@ Lemma html_svg_quote_refuted_proof :
   let d := [60;115;118;103;62;60;116;101;120;116;62;53;34;32;112;105;112;101;60;47;116;101;120;116;62;60;47;115;118;103;62;60;112;62] in
   exists l', next no_tmpl (new_lexer d) = Ok (SvgT, Some (mkSl 0 (len d)), l') /\ len d = 34.
 Proof. eexists. split; vm_compute; reflexivity. Qed.
+
+(* "</a" form-feed ">": Text() keeps the form feed although it is whitespace everywhere else in a tag *)
+Lemma html_endtag_formfeed_refuted_proof :
+  exists v t l', next no_tmpl (new_lexer [60; 47; 97; 12; 62]) = Ok (EndTagT, Some v, l') /\ ltext l' = Some t /\
+    view_bytes (lbuf (lz l')) t = [97; 12] /\ is_ws 12 = true.
+Proof. eexists _, _, _. split; [vm_compute; reflexivity|]. split; [reflexivity|]. split; vm_compute; reflexivity. Qed.
